@@ -3125,7 +3125,9 @@ class Network(Cached):
 
             #  Return the absolute value of tcc, since a bug sometimes results
             #  in negative signs
-            return np.abs(np.array(self.graph.closeness()))
+            #  mode="out": path lengths FROM the node, as documented and as
+            #  in the weighted case (igraph's default ignores link directions)
+            return np.abs(np.array(self.graph.closeness(mode="out")))
 
         else:
             CC = np.zeros(self.N)
